@@ -43,7 +43,25 @@ fn record(idx: u64, sc: &Scenario, out: RunOut, agg: &mut Agg, known: &KnownFind
     }
     if let Some(fail) = out.fail {
         // minimise, keeping the violation class
-        let (min_sc, min_fail) = shrink::minimise(sc, &fail);
+        // The batch executes many runs per worker thread; whatever a change makes the system under test keep in
+        // thread-locals or statics survives from one run to the next there. A replay file must stand on its own:
+        // the run is first re-executed on a thread of its own, then minimised (every candidate on a fresh thread),
+        // and the result is confirmed in a fresh process; otherwise the run is reported as generated, with a note.
+        let mut note = None;
+        simcore::post_processing_begins(15, known.matches(PROPERTY, &fail.class).is_none());
+        let sc1 = sc.clone();
+        let alone = simcore::with_timeout(move || execute(&sc1)).and_then(|o| o.fail).filter(|f| f.class == fail.class);
+        let (mut min_sc, mut min_fail) = match &alone {
+            Some(f) => shrink::minimise(sc, f),
+            None => (sc.clone(), fail.clone()),
+        };
+        let engine = "e1";
+        if alone.is_none() || simcore::reproduces_in_fresh_process(PROPERTY, &min_fail.class, &json!({"engine": engine, "minimised": min_sc}), idx) == Some(false) {
+            (min_sc, min_fail) = (sc.clone(), fail.clone());
+            if alone.is_none() || simcore::reproduces_in_fresh_process(PROPERTY, &min_fail.class, &json!({"engine": engine, "minimised": min_sc}), idx) == Some(false) {
+                note = Some("not reproduced by this run alone on a fresh thread / in a fresh process: the violation depends on state the system under test kept from earlier runs of the batch (thread-local or process-wide); re-run the batch with the same VERIF_SEED to see it again");
+            }
+        }
         let sig = format!("{}", min_fail.class);
         if let Some(what) = known.matches(PROPERTY, &sig) {
             let e = agg.known.entry(sig).or_insert((0, what.to_string()));
@@ -55,7 +73,7 @@ fn record(idx: u64, sc: &Scenario, out: RunOut, agg: &mut Agg, known: &KnownFind
                     run: idx,
                     class: min_fail.class.clone(),
                     detail: format!("step {}: {}", min_fail.step, min_fail.detail),
-                    scenario: json!({"engine": "e1", "minimised": min_sc, "original_ops": sc.ops.len(), "minimised_ops": min_sc.ops.len()}),
+                    scenario: json!({"engine": "e1", "minimised": min_sc, "original_ops": sc.ops.len(), "minimised_ops": min_sc.ops.len(), "note": note}),
                 },
             );
         }
